@@ -109,6 +109,12 @@ static void *queue_client(void *arg) {
 		sim_event_wait(&L.suspended_by_1, LIVENESS_NS);
 		sim_point(); dispatch_resume(L.q); L.susp_open--;
 	}
+	// the width is changed a few more times while the other clients suspend and resume the (possibly idle) queue
+	if (L.set_width && !(L.last_from_item && c == 0)) for (int k = 0; k < 3; k++) {   // (client 0's reference may already have been dropped by its last item)
+		if (c == L.nclients - 1) dispatch_queue_set_width(L.q, 5 + k);
+		else { L.susp_open++; dispatch_suspend(L.q); sim_point(); dispatch_resume(L.q); L.susp_open--; }
+		sim_point();
+	}
 	// an item that suspends and resumes its own queue does so under its submitter's reference
 	if (L.susp_item_sent[c]) sim_event_wait(&L.susp_item_done[c], 3 * LIVENESS_NS);
 	if (c == 1 && L.set_ctx_late) { dispatch_set_context(L.q, &L.ctx2); L.expect_ctx2 = 1; }
